@@ -97,7 +97,7 @@ func classify(log string) (k1, other []string) {
 		tops := topFrames(blk)
 		isK1 := len(tops) >= 2
 		for _, f := range tops {
-			if !strings.Contains(f, "uint32Accumulator).accumulate") && !strings.Contains(f, "RecordMsg).expandComponents") {
+			if !strings.Contains(f, "uint32Accumulator).accumulate") && !strings.Contains(f, "RecordMsg).expandComponents") && !strings.Contains(f, "fit.uint32NewAccumulator") {
 				isK1 = false
 			}
 		}
@@ -128,16 +128,18 @@ type opSpan struct {
 	start, end time.Time
 }
 
-// execute runs the program and compares every call with the sequential
-// baseline. It returns mismatches and whether two goroutines ran the same op
-// kind at overlapping times.
-func execute(pool *ops.Pool, baseline map[string]string, p *Program) (mismatch []string, overlapped bool) {
+// execute runs the program (all goroutines released together) and returns
+// the result hash of every call plus whether two goroutines ran the same op
+// kind at overlapping times. Nothing of the library has been called in this
+// process before: lazily initialised package state meets its first use
+// concurrently.
+func execute(pool *ops.Pool, p *Program) (hashes [][]string, overlapped bool) {
 	old := runtime.GOMAXPROCS(p.GoMaxProcs)
 	defer runtime.GOMAXPROCS(old)
 	var wg sync.WaitGroup
 	start := make(chan struct{})
-	var mu sync.Mutex
 	spans := make([][]opSpan, len(p.Routines))
+	hashes = make([][]string, len(p.Routines))
 	for gi, list := range p.Routines {
 		wg.Add(1)
 		go func(gi int, list []ops.Op) {
@@ -148,11 +150,7 @@ func execute(pool *ops.Pool, baseline map[string]string, p *Program) (mismatch [
 				got := ops.Hash(ops.Run(pool, op, nil))
 				t1 := time.Now()
 				spans[gi] = append(spans[gi], opSpan{op.Kind, t0, t1})
-				if want := baseline[op.String()]; got != want {
-					mu.Lock()
-					mismatch = append(mismatch, fmt.Sprintf("goroutine %d: %v returned a different result than when run alone", gi, op))
-					mu.Unlock()
-				}
+				hashes[gi] = append(hashes[gi], got)
 			}
 		}(gi, list)
 	}
@@ -169,7 +167,6 @@ func execute(pool *ops.Pool, baseline map[string]string, p *Program) (mismatch [
 			}
 		}
 	}
-	sort.Strings(mismatch)
 	return
 }
 
@@ -192,45 +189,49 @@ func TestMain(m *testing.M) {
 	}
 	var seed uint64
 	fmt.Sscan(os.Getenv("VERIF_C09_WORKER"), &seed)
-	pool := ops.BuildPool(int(seed))
-	baseline := sequentialBaseline(pool)
+	var pool *ops.Pool
+	if pf := os.Getenv("VERIF_C09_POOL"); pf != "" {
+		if data, err := os.ReadFile(pf); err == nil {
+			pool = &ops.Pool{}
+			if json.Unmarshal(data, pool) != nil {
+				pool = nil
+			}
+		}
+	}
+	if pool == nil {
+		pool = ops.BuildPool(int(seed))
+	}
 	_, logPos := readLog(0)
 	dec := json.NewDecoder(os.Stdin)
 	enc := json.NewEncoder(os.Stdout)
-	for {
-		var p Program
-		if err := dec.Decode(&p); err != nil {
-			break
-		}
-		var r workerReply
-		r.Mismatch, r.Overlapped = execute(pool, baseline, &p)
-		r.Log, logPos = readLog(logPos)
-		enc.Encode(&r)
+	var p Program
+	if err := dec.Decode(&p); err != nil {
+		os.Exit(0)
 	}
-	if p := raceLogFile(); p != "" {
-		os.Remove(p)
+	var r workerReply
+	// concurrent run first, sequential baseline afterwards
+	hashes, overlapped := execute(pool, &p)
+	r.Overlapped = overlapped
+	r.Log, logPos = readLog(logPos)
+	base := map[string]string{}
+	for gi, list := range p.Routines {
+		for oi, op := range list {
+			want, ok := base[op.String()]
+			if !ok {
+				want = ops.Hash(ops.Run(pool, op, nil))
+				base[op.String()] = want
+			}
+			if hashes[gi][oi] != want {
+				r.Mismatch = append(r.Mismatch, fmt.Sprintf("goroutine %d: %v returned a different result than when run alone", gi, op))
+			}
+		}
+	}
+	sort.Strings(r.Mismatch)
+	enc.Encode(&r)
+	if lp := raceLogFile(); lp != "" {
+		os.Remove(lp)
 	}
 	os.Exit(0)
-}
-
-func sequentialBaseline(pool *ops.Pool) map[string]string {
-	baseline := map[string]string{}
-	for _, k := range ops.OpKinds {
-		if strings.HasPrefix(k, "encode") {
-			for i := range pool.Specs {
-				for _, be := range []bool{false, true} {
-					op := ops.Op{Kind: k, Idx: i, BE: be}
-					baseline[op.String()] = ops.Hash(ops.Run(pool, op, nil))
-				}
-			}
-			continue
-		}
-		for i := range pool.Bytes {
-			op := ops.Op{Kind: k, Idx: i}
-			baseline[op.String()] = ops.Hash(ops.Run(pool, op, nil))
-		}
-	}
-	return baseline
 }
 
 type worker struct {
@@ -240,13 +241,18 @@ type worker struct {
 	in  io.WriteCloser
 }
 
+var poolFile string
+
 func startWorker(seed uint64) (*worker, error) {
 	cmd := exec.Command(os.Args[0])
+	if poolFile != "" {
+		cmd.Env = append(cmd.Env, "VERIF_C09_POOL="+poolFile)
+	}
 	gorace := os.Getenv("GORACE")
 	if !strings.Contains(gorace, "exitcode=") {
 		gorace += " exitcode=0"
 	}
-	cmd.Env = append(os.Environ(), fmt.Sprintf("VERIF_C09_WORKER=%d", seed), "VERIF_OUT=", "GORACE="+gorace)
+	cmd.Env = append(append(os.Environ(), cmd.Env...), fmt.Sprintf("VERIF_C09_WORKER=%d", seed), "VERIF_OUT=", "GORACE="+gorace)
 	in, err := cmd.StdinPipe()
 	if err != nil {
 		return nil, err
@@ -293,6 +299,17 @@ func TestC09(t *testing.T) {
 			rec.Note("GORACE log_path not set: race reports cannot be collected")
 		}
 		pool := ops.BuildPool(int(seed))
+		if dir := os.Getenv("VERIF_BUILD"); dir != "" {
+			// workers load the pool from a file instead of regenerating it
+			if data, err := json.Marshal(pool); err == nil {
+				poolFile = fmt.Sprintf("%s/c09pool-%d.json", dir, os.Getpid())
+				if os.WriteFile(poolFile, data, 0o644) == nil {
+					defer os.Remove(poolFile)
+				} else {
+					poolFile = ""
+				}
+			}
+		}
 		// partition the decode inputs
 		var plain, accum []int
 		for i, b := range pool.Bytes {
@@ -304,15 +321,15 @@ func TestC09(t *testing.T) {
 		}
 		rec.Class("pool inputs without accumulating sources", int64(len(plain)))
 		rec.Class("pool inputs with accumulating sources", int64(len(accum)))
-		w, err := startWorker(seed)
-		if err != nil {
-			rec.Fail("worker", "HARNESS", "cannot start the worker process: "+err.Error(), Program{})
-			return
-		}
-		defer w.stop()
-
 		runProgram := func(p *Program, sub string) (string, string, bool) {
+			// a fresh worker process per program: the program is the first
+			// use of the library in that process
+			w, err := startWorker(seed)
+			if err != nil {
+				return "HARNESS", "cannot start the worker process: " + err.Error(), false
+			}
 			reply, err := w.run(p)
+			w.stop()
 			if err != nil {
 				return "HARNESS", "worker process died: " + err.Error(), false
 			}
